@@ -72,9 +72,13 @@ def ts_strategy():
 @st.composite
 def cases(draw):
   gens = []
-  for _ in range(draw(st.sampled_from([1, 2, 2]))):
+  for _ in range(draw(st.sampled_from([1, 2, 2, 3]))):
     wl_text, wl = draw(list_file())
     bl_text, bl = draw(list_file())
+    if len(gens) >= 1 and draw(st.integers(0, 2)) == 0:
+      # the same rules deployed again (e.g. after the file had been removed for a while)
+      back = gens[draw(st.integers(0, len(gens) - 1))]
+      wl_text, wl, bl_text, bl = back['whitelist'], back['wl'], back['blacklist'], back['bl']
     if draw(st.integers(0, 3)) == 0:
       wl_text, wl = '', []
     if draw(st.integers(0, 3)) == 0:
@@ -94,6 +98,15 @@ def cases(draw):
       pts = pts + [[p[0], draw(ts_strategy()), draw(value_strategy())] for p in gens[-1]['points'][:6]]
     gens.append({'whitelist': wl_text, 'blacklist': bl_text, 'wl': wl, 'bl': bl, 'points': pts,
                  'wl_missing': draw(st.integers(0, 7)) == 0, 'bl_missing': draw(st.integers(0, 7)) == 0})
+  if draw(st.integers(0, 5)) == 0:
+    # a list file removed for a while and then deployed again with the same rules (new mtime, perhaps a new comment)
+    g0 = gens[0]
+    which = draw(st.sampled_from(['wl', 'bl', 'both']))
+    gone = dict(g0, wl_missing=which in ('wl', 'both'), bl_missing=which in ('bl', 'both'))
+    again = dict(g0, wl_missing=False, bl_missing=False,
+                 whitelist=draw(st.sampled_from(['', '# redeployed\n'])) + g0['whitelist'],
+                 blacklist=draw(st.sampled_from(['', '# redeployed\n\n'])) + g0['blacklist'])
+    gens = [dict(g0, wl_missing=False, bl_missing=False), gone, again]
   return {'generations': gens, 'resolution': draw(st.sampled_from([0, 0, 1, 10, 60]))}
 
 
